@@ -25,6 +25,35 @@ use tokio::io::{AsyncRead, AsyncWrite, ReadBuf};
 
 pub const UNBOUNDED_BYTES: usize = usize::MAX / 4;
 
+/// WebSocket frames in the bytes written on a direction: (end offset of the first Close frame, the bytes end at a frame
+/// boundary). Only headers are looked at (the client role's payloads are masked).
+pub fn scan_frames(log: &[u8]) -> (Option<usize>, bool) {
+    let (mut i, mut close) = (0usize, None);
+    loop {
+        if i == log.len() {
+            return (close, true);
+        }
+        if i + 2 > log.len() {
+            return (close, false);
+        }
+        let (op, masked, l7) = (log[i] & 0x0f, log[i + 1] & 0x80 != 0, usize::from(log[i + 1] & 0x7f));
+        let (hdr, len) = match l7 {
+            126 if i + 4 <= log.len() => (4, usize::from(u16::from_be_bytes([log[i + 2], log[i + 3]]))),
+            127 if i + 10 <= log.len() => (10, u64::from_be_bytes(log[i + 2..i + 10].try_into().unwrap()) as usize),
+            126 | 127 => return (close, false),
+            n => (2, n),
+        };
+        let total = hdr + if masked { 4 } else { 0 } + len;
+        if i + total > log.len() {
+            return (close, false);
+        }
+        i += total;
+        if op == 8 && close.is_none() {
+            close = Some(i);
+        }
+    }
+}
+
 #[derive(Debug, Default)]
 pub struct PDir {
     pub inflight: Vec<u8>,
@@ -46,6 +75,8 @@ pub struct PDir {
     pub wlog: Vec<u8>,
     pub consumed: u64,
     pub deliveries: u64,
+    /// how many of the `written` bytes have reached the reader's side
+    pub delivered: u64,
     /// a write or flush of the sender was answered `Pending` while the direction was stalled (the send side is stuck for good)
     pub stuck: bool,
 }
@@ -105,6 +136,7 @@ impl BytePipe {
             }
             let bytes = std::mem::take(&mut d.inflight);
             d.unread.extend_from_slice(&bytes);
+            d.delivered += bytes.len() as u64;
             if d.fin_inflight {
                 d.fin_inflight = false;
                 d.fin_delivered = true;
